@@ -29,6 +29,7 @@ fn main() {
         "scan-vectors" => vh::scan_vectors::run(&opts),
         "parsers" => vh::parser_drive::run(&opts),
         "stream" => vh::stream::run(&opts),
+        "roundtrip" => vh::roundtrip::run(&opts),
         "renumber" => vh::renumber_drive::run(&opts),
         other => {
             eprintln!("unknown subcommand {other}");
